@@ -317,6 +317,21 @@ func stringFunc(arg1 query) func(query, iterator) interface{} {
 	}
 }
 
+// stringArg evaluates a string-typed function argument: a string, or a node-set taken as
+// the string-value of its first node (the empty string for an empty node-set).
+func stringArg(t iterator, arg query) (string, bool) {
+	switch typ := functionArgs(arg).Evaluate(t).(type) {
+	case string:
+		return typ, true
+	case query:
+		if node := typ.Select(t); node != nil {
+			return node.Value(), true
+		}
+		return "", true
+	}
+	return "", false
+}
+
 // startwithFunc is a XPath functions starts-with(string, string).
 func startwithFunc(arg1, arg2 query) func(query, iterator) interface{} {
 	return func(_ query, t iterator) interface{} {
@@ -335,8 +350,7 @@ func startwithFunc(arg1, arg2 query) func(query, iterator) interface{} {
 		default:
 			panic(errors.New("starts-with() function argument type must be string"))
 		}
-		n, ok = functionArgs(arg2).Evaluate(t).(string)
-		if !ok {
+		if n, ok = stringArg(t, arg2); !ok {
 			panic(errors.New("starts-with() function argument type must be string"))
 		}
 		return strings.HasPrefix(m, n)
@@ -361,8 +375,7 @@ func endwithFunc(arg1, arg2 query) func(query, iterator) interface{} {
 		default:
 			panic(errors.New("ends-with() function argument type must be string"))
 		}
-		n, ok = functionArgs(arg2).Evaluate(t).(string)
-		if !ok {
+		if n, ok = stringArg(t, arg2); !ok {
 			panic(errors.New("ends-with() function argument type must be string"))
 		}
 		return strings.HasSuffix(m, n)
@@ -388,8 +401,7 @@ func containsFunc(arg1, arg2 query) func(query, iterator) interface{} {
 			panic(errors.New("contains() function argument type must be string"))
 		}
 
-		n, ok = functionArgs(arg2).Evaluate(t).(string)
-		if !ok {
+		if n, ok = stringArg(t, arg2); !ok {
 			panic(errors.New("contains() function argument type must be string"))
 		}
 
